@@ -3,6 +3,7 @@ package checks
 import (
 	"fmt"
 	"go/ast"
+	"go/constant"
 	"go/types"
 	"strings"
 
@@ -182,6 +183,12 @@ func summariseU32Helper(p *core.Program, u flow.FuncUnit) (u32Helper, bool) {
 
 // sectionEvents interprets the success path of a proving-system I/O method as a sequence of section events.
 func sectionEvents(p *core.Program, u flow.FuncUnit, isWriter bool) (evs []ioEvent, problems []string) {
+	return sectionEventsWith(p, u, isWriter, nil, 0)
+}
+
+// sectionEventsWith: bind gives the constant value of boolean parameters at the call site through which this unit was
+// reached (a writer shared by both formats behind a `raw bool` flag is read once per flag value).
+func sectionEventsWith(p *core.Program, u flow.FuncUnit, isWriter bool, bind map[*types.Var]bool, depth int) (evs []ioEvent, problems []string) {
 	info := u.Pkg.TypesInfo
 	ix := indexFuncs(p)
 	helperOf := func(call *ast.CallExpr) (u32Helper, bool) {
@@ -214,7 +221,17 @@ func sectionEvents(p *core.Program, u flow.FuncUnit, isWriter bool) (evs []ioEve
 		return nil, []string{"receiver or stream parameter not named"}
 	}
 	g := flow.NewGraph(u)
-	nodes, off, ok := g.SuccessPath()
+	nodes, off, ok := g.SuccessPathWith(func(e ast.Expr) flow.Tri {
+		if v := identVar(info, e); v != nil {
+			if val, bound := bind[v]; bound {
+				if val {
+					return flow.True
+				}
+				return flow.False
+			}
+		}
+		return flow.Unknown
+	})
 	if !ok {
 		where := "-"
 		if off != nil {
@@ -358,6 +375,37 @@ func sectionEvents(p *core.Program, u flow.FuncUnit, isWriter bool) (evs []ioEve
 					}
 				}
 			}
+			// recv.helper(w, constants…): a method of the same receiver that carries on with the same stream is read in place
+			if sel, ok := ast.Unparen(call.Fun).(*ast.SelectorExpr); ok && identVar(info, sel.X) == recv && inRepoObj(fn) && depth < 3 {
+				if cu, ok := ix.decls[fn.Origin()]; ok {
+					passes := false
+					for _, a := range call.Args {
+						if isStream(a) {
+							passes = true
+						}
+					}
+					if cfd, isFD := cu.Node.(*ast.FuncDecl); isFD && passes && cfd.Recv != nil {
+						cb := map[*types.Var]bool{}
+						i := 0
+						for _, f := range cfd.Type.Params.List {
+							for _, nm := range f.Names {
+								if i < len(call.Args) {
+									if tv, ok := info.Types[call.Args[i]]; ok && tv.Value != nil && tv.Value.Kind() == constant.Bool {
+										if pv, _ := cu.Pkg.TypesInfo.Defs[nm].(*types.Var); pv != nil {
+											cb[pv] = constant.BoolVal(tv.Value)
+										}
+									}
+								}
+								i++
+							}
+						}
+						sub, subProblems := sectionEventsWith(p, cu, isWriter, cb, depth+1)
+						evs = append(evs, sub...)
+						problems = append(problems, subProblems...)
+						return false
+					}
+				}
+			}
 			// any other call that receives the stream moves it in a way the analyser cannot name
 			for _, a := range call.Args {
 				if isStream(a) {
@@ -416,13 +464,39 @@ func checkC11(p *core.Program, r *core.Report) {
 		kind string
 	}
 	var seqs []seq
+	// a writer with boolean parameters (one implementation behind a `raw bool` flag) is read once per flag value
+	boolParams := func(u flow.FuncUnit) []*types.Var {
+		var out []*types.Var
+		if fd, ok := u.Node.(*ast.FuncDecl); ok {
+			for _, f := range fd.Type.Params.List {
+				for _, nm := range f.Names {
+					if v, _ := u.Pkg.TypesInfo.Defs[nm].(*types.Var); v != nil {
+						if b, ok := v.Type().Underlying().(*types.Basic); ok && b.Kind() == types.Bool {
+							out = append(out, v)
+						}
+					}
+				}
+			}
+		}
+		return out
+	}
 	for _, w := range writers {
 		r.AnalysedFn(w.Name)
-		evs, probs := sectionEvents(p, w, true)
-		for _, pr := range probs {
-			r.Undecided("O11.1", w.Name+": section sequence", p.Pos(w.Node.Pos()), "%s", pr)
+		binds := []map[*types.Var]bool{nil}
+		if bp := boolParams(w); len(bp) == 1 {
+			binds = []map[*types.Var]bool{{bp[0]: false}, {bp[0]: true}}
 		}
-		seqs = append(seqs, seq{w, evs, "writer"})
+		for _, bind := range binds {
+			wu := w
+			for v, val := range bind {
+				wu.Name = fmt.Sprintf("%s[%s=%v]", w.Name, v.Name(), val)
+			}
+			evs, probs := sectionEventsWith(p, w, true, bind, 0)
+			for _, pr := range probs {
+				r.Undecided("O11.1", wu.Name+": section sequence", p.Pos(w.Node.Pos()), "%s", pr)
+			}
+			seqs = append(seqs, seq{wu, evs, "writer"})
+		}
 	}
 	for _, rd := range readers {
 		r.AnalysedFn(rd.Name)
@@ -485,7 +559,7 @@ func checkC11(p *core.Program, r *core.Report) {
 			}
 		}
 	}
-	r.Floor("section events", 15)
+	r.Floor("section events", 10) // two header words and three objects, in at least one writer and one reader
 
 	// O11.2 errors
 	ord := map[string]int{}
@@ -504,7 +578,7 @@ func checkC11(p *core.Program, r *core.Report) {
 			}
 		}
 	}
-	r.Floor("I/O error sites", 15)
+	r.Floor("I/O error sites", 8)
 
 	// reader: section objects constructed for BN254
 	for _, rd := range readers {
